@@ -47,6 +47,18 @@ def expected_row(s, shape, metadata, cls, fields, unwrap_terms):
         v = getattr(st, f)
         q = 1 * v
         row[f] = (float(q.value), str(q.unit)) if hasattr(q, 'unit') else (float(q), '')
+    # centroids also independently of the statistic classes (no WCS in these metadata sets): the weighted mean pixel
+    # position along the right array axis - x is the last sky axis, y the first, v the declared velocity axis
+    if metadata.get('wcs') is None:
+        w = np.asarray(vals, dtype=float)
+        w = np.where(np.isnan(w), 0.0, w)
+        means = [float((np.asarray(a_, dtype=float) * w).sum() / w.sum()) for a_ in new]
+        if cls is PPVStatistic:
+            va = int(metadata.get('vaxis', 0))
+            sky = [i for i in range(3) if i != va]
+            row['independent centroids'] = {'x_cen': means[sky[1]], 'y_cen': means[sky[0]], 'v_cen': means[va]}
+        else:
+            row['independent centroids'] = {'x_cen': means[1], 'y_cen': means[0]}
     return row
 
 
@@ -84,6 +96,10 @@ def check_catalog(ctx, d, structures, shape, metadata, fields, ppv, verbose, inf
                     fails.append('row %d field %s = %r, statistic of that structure %r' % (s.idx, f, g, w))
             elif not (close(g, w, 1e-8) or (g != g and w != w)):
                 fails.append('row %d field %s = %r, statistic of that structure %r' % (s.idx, f, g, w))
+            if f in ('x_cen', 'y_cen', 'v_cen') and 'independent centroids' in want:
+                wc_ = want['independent centroids'][f]
+                if not close(g, wc_, 1e-9):
+                    fails.append('row %d %s = %r, weighted mean pixel position along that axis %r' % (s.idx, f, g, wc_))
             if f == 'area_exact':
                 # independently of the statistic classes: the number of distinct sky positions times the pixel area
                 ax = [i for i in range(len(shape))] if not ppv else [i for i in range(3) if i != int(metadata.get('vaxis', 0))]
